@@ -126,6 +126,11 @@ class Writer(object):
     if os.path.dirname(carbon.storage.STORAGE_SCHEMAS_CONFIG) != self.conf:
       raise core.HarnessError('carbon.storage was imported with another CONF_DIR')
     self.cache = carbon.writer.MetricCache()
+    # the daemon's own service object: its two periodic reload tasks are what re-reads the files in a running daemon
+    self.service = carbon.writer.WriterService()
+    self.loads = 0
+
+  MTIMES = (1000000000 + 1000, 1000000000 + 500, 1000000000 + 500, 1000000000 + 2000, 1000000000 + 100)
 
   def load(self, schema_sections, agg_sections):
     with open(os.path.join(self.conf, 'storage-schemas.conf'), 'w') as f:
@@ -137,8 +142,15 @@ class Writer(object):
     else:
       with open(p, 'w') as f:
         f.write(render(agg_sections))
-    self.writer.reloadStorageSchemas()
-    self.writer.reloadAggregationSchemas()
+    # file times as deployments produce them: not monotonic (a rollback restores an older file, cp -p / rsync -t keep times,
+    # two edits can share a timestamp) - the content on disk is what counts
+    mt = self.MTIMES[self.loads % len(self.MTIMES)]
+    self.loads += 1
+    for q in (os.path.join(self.conf, 'storage-schemas.conf'), p):
+      if os.path.exists(q):
+        os.utime(q, (mt, mt))
+    for task in (self.service.storage_reload_task, self.service.aggregation_reload_task):
+      task.f(*task.a, **task.kw)            # one tick of the service's 60 s reload task
 
   def create_args(self, metric):
     self.db.files.clear()
